@@ -33,7 +33,7 @@ PROPS = {
                 needs=["hits_within_1ms_of_deadline", "writes_moving_a_deadline"]),
     "C06": dict(mode="sched", profile="all", engine_bin="sched",
                 quick={"cases": 400, "max_size": 30, "env": {"VERIF_SCHED_EXHAUST": "60", "VERIF_SCHED_MAXOPS": "2"}},
-                thorough={"cases": 4000, "max_size": 40, "env": {"VERIF_SCHED_EXHAUST": "3000", "VERIF_SCHED_MAXOPS": "3"}, "timeout": 7000},
+                thorough={"cases": 600, "max_size": 40, "env": {"VERIF_SCHED_EXHAUST": "3000", "VERIF_SCHED_MAXOPS": "3"}, "timeout": 7000},
                 engine="E3 sched (g++ ASan+UBSan, -DCAPPUCCINO_VERIF_HOOKS), baton scheduler + sequential re-execution search",
                 rule="programs = (container with thread_safe::yes, capacity 1-3, 3-5 keys, sequential prefix, 2-3 threads x 1-3 operations from the whole vocabulary incl. range forms, "
                      "clean, age, clear, update_ttl and the observers, sequential suffix of scans / evicting inserts / clock steps) drawn by rapidcheck; each program is run under up to 6 "
@@ -43,8 +43,8 @@ PROPS = {
                              "a method that omits the lock has no schedule point and runs atomically here (C07 catches that mutation)",
                              "the clock is constant during the concurrent phase, as the property stipulates"]),
     "C07": dict(driver="race", mode="pairwise",
-                quick={"iters": 30, "reps": 1, "programs": 40, "prog_ops": 25},
-                thorough={"iters": 300, "reps": 3, "programs": 2000, "prog_ops": 40},
+                quick={"iters": 30, "reps": 2, "programs": 60, "prog_ops": 25},
+                thorough={"iters": 300, "reps": 4, "programs": 2000, "prog_ops": 40},
                 rule="for every container (thread_safe::yes) every unordered pair {A,B} of public member functions incl. A=B is run on two free threads released together, "
                      "each calling its method `iters` times with generated arguments over a shared small key universe after a generated prefix that fills the container and "
                      "expires part of it (complete matrix; thorough adds 3-4 thread random programs); distinct = (container, A, B, seed); "
